@@ -10,6 +10,7 @@ import numpy as np
 from hypothesis import strategies as st
 from hypothesis.stateful import RuleBasedStateMachine, initialize, rule
 
+from vf.observe import InjectedFault
 from vf.core import Discard, Violation, require
 from vf.specs import grid, loggrid, sgrid, vec
 
@@ -18,7 +19,7 @@ LEVEL = "exploration"
 RULE = (
     "(i) EXHAUSTIVE histories over the 9-letter alphabet {fun, grad, fun_and_grad} x {P0, P1, P2} of length <= L for each gradient mode (quick: L=4 for callable/2-point/3-point/cs; thorough: L=6 callable "
     "and 2-point, L=5 3-point and cs), the wrapper built by prepare_scalar_function; (ii) RuleBasedStateMachine histories of up to 30 requests with extra operations: set the scaling factor, "
-    "mutate the previously passed array in place and pass it again, pass a new array with the same values, overwrite the gradient array that was returned (also in the exhaustive part, as a second variant of every history), points containing -0.0/0.0; user callables that overwrite the array they are handed (a third variant of every history); wrappers built from a float32 / float16 / integer start point (short histories exhaustively, and in the machine). Oracle: every answer equals a fresh evaluation by the harness "
+    "mutate the previously passed array in place and pass it again, pass a new array with the same values, overwrite the gradient array that was returned (also in the exhaustive part, as a second variant of every history), points containing -0.0/0.0; user callables that overwrite the array they are handed (a third variant of every history); wrappers built from a float32 / float16 / integer start point (short histories exhaustively, and in the machine); histories of length 2..4 in which one call of the user's objective or gradient raises once and the harness repeats the request (only the freshness of the answers is judged after that). Oracle: every answer equals a fresh evaluation by the harness "
     "times the scaling factor current at the time of the answer; counters equal the call log; no objective call at the point of the immediately preceding request when that already produced f. "
     "non-trivial = the history revisits a point after visiting another, or mutates a passed array, or changes the scaling factor between two requests at the same point; distinct = distinct history"
 )
@@ -58,13 +59,21 @@ def fd_ref(p, mode, eps, rel):
 class Wrapper:
     """The wrapper under test plus the harness's call log."""
 
-    def __init__(self, mode, eps=1e-8, rel=None, x0_dtype="float64", scribble=False):
+    def __init__(self, mode, eps=1e-8, rel=None, x0_dtype="float64", scribble=False, fault=None):
         from lbfgsb.scalar_function import prepare_scalar_function
 
         self.mode, self.eps, self.rel = mode, eps, rel
         self.flog, self.glog = [], []
+        # fault = ["fun"|"jac", j]: the j-th call of that user function raises once; the harness catches the exception
+        # and repeats the request -- the repeated request is a request like any other and must be answered freshly
+        self.fault = tuple(fault) if fault else None
+        self.faulted = False
 
         def fun(x, *a):
+            if self.fault == ("fun", len(self.flog)) and not self.faulted:
+                self.faulted = True
+                self.flog.append(np.array(x, copy=True))
+                raise InjectedFault("objective failed once")
             self.flog.append(np.array(x, copy=True))  # complex for 'cs' stencil points, which are not "the point p"
             v = f_pure(x)
             if scribble and isinstance(x, np.ndarray) and x.flags.writeable:
@@ -72,6 +81,10 @@ class Wrapper:
             return v
 
         def jac(x, *a):
+            if self.fault == ("jac", len(self.glog)) and not self.faulted:
+                self.faulted = True
+                self.glog.append(np.array(x, dtype=float, copy=True))
+                raise InjectedFault("gradient failed once")
             self.glog.append(np.array(x, dtype=float, copy=True))
             gv = g_pure(x)
             if scribble and isinstance(x, np.ndarray) and x.flags.writeable:
@@ -100,13 +113,23 @@ class Wrapper:
     def request(self, op, p, tag=""):
         """p: the array object handed to the wrapper (the harness keeps its own copy of the values)."""
         pv = np.array(p, dtype=float, copy=True)
-        nf0, ng0 = len(self.flog), len(self.glog)
-        if op == "fun":
-            out_f, out_g = self.sf.fun(p), None
-        elif op == "grad":
-            out_f, out_g = None, self.sf.grad(p)
-        else:
-            out_f, out_g = self.sf.fun_and_grad(p)
+        retried = False
+        for attempt in (0, 1):
+            nf0, ng0 = len(self.flog), len(self.glog)
+            try:
+                if op == "fun":
+                    out_f, out_g = self.sf.fun(p), None
+                elif op == "grad":
+                    out_f, out_g = None, self.sf.grad(p)
+                else:
+                    out_f, out_g = self.sf.fun_and_grad(p)
+            except InjectedFault:
+                if attempt == 1:
+                    raise
+                retried = True
+                self.prev = None  # what the failed request left behind is not specified; only the freshness of answers is
+                continue
+            break
         require(np.array_equal(np.asarray(p, dtype=float), pv), "argument-untouched", f"{op}: the passed array was modified")
         s = self.scale
         if out_f is not None:
@@ -130,7 +153,12 @@ class Wrapper:
         require(len(new_f_here) <= 1, "no-re-evaluation-at-same-point", f"{tag}{op}: objective evaluated {len(new_f_here)} times at the requested point within one request")
         if self.mode == "callable" and self.prev is not None and np.array_equal(self.prev[0], pv) and self.prev[2] and out_g is not None:
             require(len(self.glog) == ng0, "no-re-evaluation-at-same-point", f"{tag}{op}: gradient evaluated again at the same point")
-        # counters
+        # counters (whether a call that raised counts is not specified: not judged once a fault has occurred)
+        if self.faulted:
+            self.prev = (pv, out_f is not None or (self.mode != "callable" and out_g is not None), out_g is not None)
+            if not any(np.array_equal(q, pv) for q in self.seen):
+                self.seen.append(pv)
+            return out_f, out_g
         require(self.sf.nfev == len(self.flog), "nfev-equals-calls", f"{tag}nfev={self.sf.nfev} but {len(self.flog)} objective calls were made")
         if out_g is not None:
             self.n_grad_requests += 1
@@ -157,7 +185,7 @@ class Wrapper:
 
 def run_history(item, stats=None):
     mode, hist = item["mode"], item["hist"]
-    w = Wrapper(None if mode == "None" else mode, item.get("eps", 1e-8), item.get("rel"), item.get("x0_dtype", "float64"), bool(item.get("scribble")))
+    w = Wrapper(None if mode == "None" else mode, item.get("eps", 1e-8), item.get("rel"), item.get("x0_dtype", "float64"), bool(item.get("scribble")), item.get("fault"))
     try:
         for k, (op, pi) in enumerate(hist):
             _, og = w.request(OPS[op], POINTS[pi].copy(), tag=f"[{mode}] step {k}: ")
@@ -169,7 +197,7 @@ def run_history(item, stats=None):
         v.spec = item
         raise
     if stats is not None:
-        stats.case(item, w.revisit or bool(item.get("mutate_returned")) or "x0_dtype" in item or bool(item.get("scribble")), [f"mode={mode}", f"len={len(hist)}", f"mutate_returned={bool(item.get('mutate_returned'))}", f"x0_dtype={item.get('x0_dtype', 'float64')}", f"scribble={bool(item.get('scribble'))}"],
+        stats.case(item, w.revisit or bool(item.get("mutate_returned")) or "x0_dtype" in item or bool(item.get("scribble")) or w.faulted, [f"mode={mode}", f"user_function_raised_once={w.faulted}", f"len={len(hist)}", f"mutate_returned={bool(item.get('mutate_returned'))}", f"x0_dtype={item.get('x0_dtype', 'float64')}", f"scribble={bool(item.get('scribble'))}"],
                    sample={"mode": mode, "history": [f"{OPS[o]}(P{p})" for o, p in hist]} if len(hist) >= 3 else None)
 
 
@@ -186,6 +214,13 @@ def enum_items(modes_len):
                         yield {"mode": mode, "hist": [list(h) for h in hist], "x0_dtype": dt}
                 if ln <= L - 1:
                     yield {"mode": mode, "hist": [list(h) for h in hist], "scribble": True}
+                if 2 <= ln <= min(L - 1, 4):
+                    # a user function that raises once, the request is repeated
+                    for j in range(1, ln + 1):
+                        yield {"mode": mode, "hist": [list(h) for h in hist], "fault": ["fun", j]}
+                    if mode == "callable":
+                        for j in range(0, ln):
+                            yield {"mode": mode, "hist": [list(h) for h in hist], "fault": ["jac", j]}
 
 
 # ---------------------------------------------------------------- stateful part
